@@ -19,12 +19,12 @@ from . import common, corecheck, gwdriver, tlc
 MUTANTS = [
     # (name, module file, old text, new text, MC module, cfg, cfg edits, formula expected to be violated)
     ("flush releases every node's commands", "MySensorsCore.tla",
-     "        ELSE {[rel |-> parked, relFail |-> {}, heldRel |-> heldn, heldFail |-> {}]}",
-     "        ELSE {[rel |-> DOMAIN s.setbuf, relFail |-> {}, heldRel |-> heldn, heldFail |-> {}]}",
+     "        ELSE {[rel |-> parked, relFail |-> {}, heldRel |-> heldn, heldFail |-> {}],",
+     "        ELSE {[rel |-> DOMAIN s.setbuf, relFail |-> {}, heldRel |-> heldn, heldFail |-> {}],",
      "MC_sleepbuf", "MC_sleepbuf.cfg", {"MaxDepth = 4": "MaxDepth = 3"}, "WakeReleasesExactlyThatNode"),
     ("a parked command is also written", "MySensorsCore.tla",
-     "            THEN [Quiet(s, Done) EXCEPT !.setbuf = Upd(s.setbuf, KeyOf(m), [ack |-> m.ack, p |-> m.p])]",
-     "            THEN [Quiet(s, Done) EXCEPT !.setbuf = Upd(s.setbuf, KeyOf(m), [ack |-> m.ack, p |-> m.p]), !.react = <<m>>]",
+     "            THEN [Quiet(s, Done) EXCEPT !.setbuf = Upd(s.setbuf, KeyOf(m), [ack |-> m.ack, p |-> m.p, sup |-> FALSE])]",
+     "            THEN [Quiet(s, Done) EXCEPT !.setbuf = Upd(s.setbuf, KeyOf(m), [ack |-> m.ack, p |-> m.p, sup |-> FALSE]), !.react = <<m>>]",
      "MC_sleepbuf", "MC_sleepbuf.cfg", {"MaxDepth = 4": "MaxDepth = 2"}, "ParkedNotWritten"),
     ("allocate node count + 1", "MySensorsCore.tla",
      "    IF hint.has THEN {hint.id} ELSE {i \\in 0..MaxNodeId : IdValid(s, i)}",
